@@ -62,6 +62,12 @@ Theorem C19_text_level_no_panic : forall (text : str) (t : tree),
 Proof. exact peg_then_interp_no_panic. Qed.
 Print Assumptions C19_text_level_no_panic.
 
+(* The model of the whole parser at text level (PEG model of pest, then interpretation) has no panic outcome for
+   ANY text: description, error - or out of fuel, which is not proved impossible (C19_parse_total is not done). *)
+Theorem C19_model_never_panics : forall (text : str) (s : site), gsd_model text <> Panic s.
+Proof. exact gsd_model_never_panics. Qed.
+Print Assumptions C19_model_never_panics.
+
 (* ------------------------------------------------------------------------------------------ (B) fidelity, PARTIAL *)
 
 (* The parser reads exactly the value of the written digits (decimal or 0x-hexadecimal in either letter case,
